@@ -70,7 +70,7 @@ def one(ctx, case, whole):
         if tuple(got) != (exp_pos, exp_acc):
             ctx.fail("move_dist_lt(%d, %d, %d, %r) = %r, firmware recurrence gives %r"
                      % (rate, accel, T, accum, got, (exp_pos, exp_acc)), whole)
-        if not all(type(v) is int for v in got):
+        if not all(isinstance(v, int) and not isinstance(v, bool) for v in got):
             ctx.fail("move_dist_lt returned non-integers %r" % (got,), whole)
         set_ambient(amb)
         got_a = call_sut(ebb_motion.moveDistLMA, rate, accel, T, accum)
